@@ -60,7 +60,8 @@ RandCall(op, St) ==
                                  u |-> u, n |-> R(1..MaxParts)]
     [] op = "CompleteUpload" -> [op |-> op, b |-> ub, k |-> uk, u |-> u,
                                  manifest |-> RW(<<"none", "none", "all", "all", "all", "missing", "reversed", "badetag", "extra">>),
-                                 cond |-> CondOK(RW(CondW))]
+                                 cond |-> CondOK(RW(CondW)),
+                                 cksum |-> CkOK(RW(<<"none", "none", "none", "none", "md5bad">>))]
     [] op = "AbortUpload"    -> [op |-> op, b |-> ub, k |-> uk, u |-> u]
     [] op = "PutTagging"     -> [op |-> op, b |-> b, k |-> k, vid |-> PV(St, b, k), tags |-> R(TagSets)]
     [] op = "Transition"     -> [op |-> op, b |-> b, k |-> k, vid |-> PV(St, b, k),
@@ -86,10 +87,38 @@ VidKind(St, c) ==
        IF Idx(vs, c.vid) = 0 THEN "absentvid"
        ELSE IF vs[Idx(vs, c.vid)].latest THEN "latestvid" ELSE "oldvid"
 Fld(c, f) == IF f \in DOMAIN c THEN c[f] ELSE "-"
+HasDup(parts) == \E i, j \in 1..Len(parts) : i # j /\ parts[i] = parts[j] /\ parts[i] # <<>>
+CurOf(St, b, k) == IF St.bver[b] # "Absent" /\ HasCurrent(St.objs[b][k]) THEN Current(St.objs[b][k]) ELSE [parts |-> <<>>, class |-> "-", pcls |-> <<>>, tags |-> "-", meta |-> EmptyMeta, seq1 |-> FALSE, ck |-> "-"]
+\* what a write would leave behind if it forgot to clear: the null row it reuses carries tags / metadata
+Reused(St, c) ==
+  IF c.op \in {"PutObject", "CopyObject", "CompleteUpload", "AppendObject"} /\ St.bver[c.b] \in {"Unset", "Suspended"}
+     /\ Idx(St.objs[c.b][c.k], 0) # 0
+  THEN LET n == St.objs[c.b][c.k][Idx(St.objs[c.b][c.k], 0)] IN
+       <<n.tags # None, n.meta.user # None, n.class # "STANDARD", Fld(c, "tags") = None, Fld(c, "meta") = None>>
+  ELSE "-"
+Extra(St, c) ==
+  CASE c.op = "CompleteUpload" ->
+         IF UpIdx(St, c.u) # 0 THEN <<Len(St.ups[UpIdx(St, c.u)].parts), St.ups[UpIdx(St, c.u)].ck,
+                                      HasDup([j \in 1..Len(St.ups[UpIdx(St, c.u)].parts) |-> St.ups[UpIdx(St, c.u)].parts[j].c])>>
+         ELSE "-"
+    [] c.op = "CopyObject" ->
+         <<CurKind(St, c.sb, c.sk), HasDup(CurOf(St, c.sb, c.sk).parts), c.mdir, c.tdir,
+           CurOf(St, c.sb, c.sk).tags # None, CurOf(St, c.sb, c.sk).class, Fld(c, "class"),
+           \E j \in 1..Len(CurOf(St, c.sb, c.sk).pcls) : CurOf(St, c.sb, c.sk).pcls[j] # CurOf(St, c.sb, c.sk).class>>
+    [] c.op = "Transition" ->
+         <<HasDup(CurOf(St, c.b, c.k).parts), CurOf(St, c.b, c.k).class, c.class, Len(CurOf(St, c.b, c.k).parts)>>
+    [] c.op = "AppendObject" ->
+         <<Len(CurOf(St, c.b, c.k).parts), CurOf(St, c.b, c.k).seq1, CurOf(St, c.b, c.k).ck,
+           CurOf(St, c.b, c.k).tags # None, CurOf(St, c.b, c.k).class>>
+    [] c.op = "DeleteObject" -> <<Len(St.objs[c.b][c.k]), HasDup(CurOf(St, c.b, c.k).parts)>>
+    [] c.op = "UploadPart" -> IF UpIdx(St, c.u) # 0 THEN <<c.n, Len(St.ups[UpIdx(St, c.u)].parts)>> ELSE "-"
+    [] OTHER -> "-"
 Sit(St, c, r) ==
   <<c.op, Fld(c, "cond"), Fld(c, "cksum"), Fld(c, "off"), Fld(c, "manifest"), VidKind(St, c),
     IF "b" \in DOMAIN c THEN St.bver[c.b] ELSE "-",
-    IF "k" \in DOMAIN c THEN CurKind(St, c.b, c.k) ELSE "-", r.err>>
+    IF "k" \in DOMAIN c THEN CurKind(St, c.b, c.k) ELSE "-", r.err,
+    IF "k" \in DOMAIN c /\ St.bver[c.b] # "Absent" THEN Reused(St, c) ELSE "-",
+    IF ("k" \in DOMAIN c /\ St.bver[c.b] # "Absent") /\ (c.op # "CopyObject" \/ St.bver[c.sb] # "Absent") THEN Extra(St, c) ELSE "-">>
 
 GenInit == /\ S = Apply(InitState(Buckets, Keys, Deviations), First).s
            /\ res = NoRes
@@ -107,6 +136,18 @@ OpWSel == OpWBase \o FlattenSeq([i \in 1..BoostFactor |-> OpWBoost])
 GStep(c) == Step(c) /\ sits' = Append(sits, Sit(S, c, Apply(S, c).r))
 GenNext == GStep(RandCall(RW(OpWSel), S))
 GenSpec == GenInit /\ [][GenNext]_<<vars, sits>>
+
+\* ---------------------------------------------------------------- situation cover (BFS)
+\* Breadth-first search over ALL calls of a small alphabet; the first (hence shortest) program that
+\* reaches each distinct situation is printed.  TLC register 9 holds the situations already seen
+\* (per worker; the pipeline removes duplicates).
+BfsInit == Init /\ sits = <<>> /\ TLCSet(9, {})
+BfsNext == S.clock < MaxClock /\ \E c \in Calls(S) : GStep(c)
+SitCover ==
+  IF sits = <<>> THEN TRUE
+  ELSE LET s == ToString(sits[Len(sits)]) IN     \* situations mix value kinds: compare their printed form
+       IF s \in TLCGet(9) THEN TRUE
+       ELSE TLCSet(9, TLCGet(9) \cup {s}) /\ PrintT(ToJson([calls |-> hist, sit |-> s]))
 
 Emit == IF Len(hist) = GenDepth THEN PrintT(ToJson([calls |-> hist, sits |-> sits])) ELSE TRUE
 =============================================================================
